@@ -5,5 +5,10 @@ package main
 // prop selects what this harness prints on top of the shared case/obs lines:
 // C14 judges cells and statistics, C15 additionally runs the real binaries under
 // many schedules. harness/c15 holds copies of gen.go, pipe.go, asm.go, main.go, sched.go
-// (sync.sh copies them) and its own mode.go.
+// (harness/c15/sync.sh copies them) and its own mode.go.
 const prop = "C14"
+
+const (
+	quickCases    = 400
+	thoroughCases = 3000
+)
